@@ -137,7 +137,7 @@ func tokens(s *uimodel.State, preload int) []token {
 		t("o", "o"), t("p", "p"), t("b", "b"), t(":", ":"), t("1", "1"), t("2", "2"), t("9", "9"), t("0", "0"),
 		t("Esc", "\x1b"), t("Backspace", "\x7f"), t("NUL", "\x00"), t("LF", "\n"), t("0xC3", "\xc3"), t(".", "."), t("Enter", "\r"),
 		t(":open thread", ":open "+H+"/notes/P\r"), t(":open actor", ":open "+H+"/users/alice\r"), t(":open missing", ":open "+H+"/missing\r"),
-		t(":open empty collection", ":open "+H+"/collections/empty\r"),
+		t(":open empty collection", ":open "+H+"/collections/empty\r"), t(":open paged collection", ":open "+H+"/notes/P/replies\r"),
 		t(":feed f", ":feed f\r"), t(":feed nosuch", ":feed nosuch\r"), t(":x", ":x\r"), t(":x y", ":x y\r"),
 		t("20 digits", "99999999999999999999"), t("0 Enter", "0\r"), t("0 .", "0."), t("1 .", "1."), t("2 .", "2."), t("1 Enter", "1\r"),
 	}
@@ -182,8 +182,8 @@ func main() {
 		return
 	}
 	r := ev.New("C07", "model_checking",
-		"breadth-first search over reference-model states (mode, buffer, history of pages, cursor) from 9 start commands (thread with ancestors and paged replies, actor with paged outbox, multi-author post with unfetchable parent, empty outbox, outbox whose second page is missing, feed of two actors, empty feed, failing URL, empty collection); "+
-			"alphabet: the keymap's keys, digits, Esc, Backspace, arbitrary bytes (NUL, LF, 0xC3) and macros (:open / :feed / unknown commands, a 20-digit number, 0 Enter, n .); a second search goes to depth 7 (quick) / 9 (thorough) over the page-opening and history keys {space,h,l,j,k,c,a} from the thread and actor starts; every transition replays the shortest key path on a fresh real ui.State (key + settle under the scheduler's default schedule) "+
+		"breadth-first search over reference-model states (mode, buffer, history of pages, cursor) from 10 start commands (a paged collection opened as a listing, thread with ancestors and paged replies, actor with paged outbox, multi-author post with unfetchable parent, empty outbox, outbox whose second page is missing, feed of two actors, empty feed, failing URL, empty collection); "+
+			"alphabet: the keymap's keys, digits, Esc, Backspace, arbitrary bytes (NUL, LF, 0xC3) and macros (:open / :feed / unknown commands, a 20-digit number, 0 Enter, n .); a second search goes to depth 6 (quick) / 9 (thorough) over the page-opening and history keys {space,h,l,j,k,c,a} from the thread and actor starts; every transition replays the shortest key path on a fresh real ui.State (key + settle under the scheduler's default schedule) "+
 			"and compares mode, buffer, history length/index and highlighted item; every frame is checked for height, terminal safety and colour leaks; distinct_nontrivial = distinct model states")
 	w := uimodel.Build()
 	geoms := [][3]int{{40, 12, 2}}
@@ -220,7 +220,7 @@ func main() {
 		}
 		return []token{{"space", []byte(" ")}, {"h", []byte("h")}, {"l", []byte("l")}, {"j", []byte("j")}, {"k", []byte("k")}, {"c", []byte("c")}, {"a", []byte("a")}}
 	}
-	hdepth := 7
+	hdepth := 6
 	if r.Thorough() {
 		hdepth = 9
 	}
@@ -228,7 +228,7 @@ func main() {
 		{"full-alphabet", depth, nil, tokens},
 		// deeper histories over the keys that open pages and walk the history: most defects of
 		// stateful code do not show from the initial state
-		{"history-keys", hdepth, map[string]bool{"thread": true, "actor": true}, historyKeys},
+		{"history-keys", hdepth, map[string]bool{"thread": true, "actor": true, "paged-collection": true}, historyKeys},
 	}
 	for _, ph := range phases {
 		depth := ph.Depth
